@@ -573,8 +573,13 @@ def entry_reader(variant):
     return (rd, A.globals.r, S(m=Val('late'), k=Val('late')), A.late, S.globals.r)
 
 
+GLOMMER = [None]
+
+
 def run_entry(case):
     kind, own_i, variant, steps = case
+    from glom import Glommer
+    GLOMMER[0] = Glommer()          # ONE Glommer for the whole history: a default Glommer takes scope= like glom() does
     own = None if OWN_SCOPES[own_i] is None else dict(OWN_SCOPES[own_i])
     own_before = None if own is None else dict(own)
     if kind == 'spec':
@@ -592,7 +597,10 @@ def run_entry(case):
         else:
             merged = dict(o, **c) if entry == 'method' else dict(c, **o)
             want = {name: merged.get(name, 'unset') for name in ('k', 'j', 'm')}
-            got = sp.glom(5, **kw) if entry == 'method' else glom(5, sp, **kw)
+            try:
+                got = sp.glom(5, **kw) if entry == 'method' else GLOMMER[0].glom(5, sp, **kw) if entry == 'glommer' else glom(5, sp, **kw)
+            except Exception as e:
+                got = 'raised %r' % (e,)
         n += 1
         if got != want:
             return R({'expected': 'call %d sees exactly its own scope= and the Spec\'s: %r' % (i, want), 'observed': repr(got),
@@ -616,6 +624,12 @@ def gen_entries(tier):
                     continue
                 for steps in _it.product(choices, repeat=d):
                     cases.append(['spec', own_i, variant, [list(x) for x in steps]])
+                if d <= 2:
+                    # the same calls made through a Glommer (alone, and mixed with the other entry points)
+                    gchoices = [('glommer', c) for c in range(len(CALL_SCOPES))]
+                    for steps in _it.product(gchoices + (choices if d == 2 else []), repeat=d):
+                        if any(e == 'glommer' for e, _ in steps):
+                            cases.append(['spec', own_i, variant, [list(x) for x in steps]])
     for d in range(1, depth + 2):
         for steps in _it.product(range(len(CALL_SCOPES)), repeat=d):
             cases.append(['first', 0, 'reader', [['subspec', c] for c in steps]])
